@@ -114,6 +114,36 @@ func (formatExec) Exec(line string) (obs, viol string) {
 			viol = fmt.Sprintf("layer of %s %v at branch factor %d is %d, the published rule gives %d", t[1], k, bf, l, want)
 		}
 		return obs, viol
+	case "decj":
+		// decj <hex>: the node text decoded the way store.go does (encoding/json into raw
+		// elements and link names), rendered canonically
+		b, _ := hex.DecodeString(t[1])
+		var sn struct {
+			Key   []json.RawMessage
+			Value []json.RawMessage
+			Link  []string `json:",omitempty"`
+		}
+		if err := json.Unmarshal(b, &sn); err != nil {
+			return "err", ""
+		}
+		var sb strings.Builder
+		sb.WriteString("k")
+		for _, k := range sn.Key {
+			sb.WriteString(":" + hex.EncodeToString(k))
+		}
+		sb.WriteString(" v")
+		for _, v := range sn.Value {
+			sb.WriteString(":" + hex.EncodeToString(v))
+		}
+		sb.WriteString(" l")
+		for _, l := range sn.Link {
+			if l == "" {
+				sb.WriteString(":-")
+			} else {
+				sb.WriteString(":" + hex.EncodeToString([]byte(l)))
+			}
+		}
+		return sb.String(), ""
 	case "cmp":
 		a, _ := strconv.ParseUint(t[2], 10, 64)
 		b, _ := strconv.ParseUint(t[3], 10, 64)
@@ -239,6 +269,39 @@ func genFormatCase(r *rand.Rand) Case {
 			}
 		}
 	}
+	// node texts in the canonical v1marshaler shape with elements that exercise the scanner:
+	// nested arrays and objects, strings holding commas, brackets, escaped quotes and backslashes
+	elems := []string{"1", "-20", "3.5e2", "true", "null", `"a"`, `"a,b"`, `"]"`, `"x\"y"`, `"\\"`, `[1,2]`, `[[1],[2,"]"]]`, `{"A":"x"}`, `{"A":[1,{"B":","}]}`, `"\u00e9"`, `""`}
+	for i := 0; i < 8; i++ {
+		n := r.Intn(4)
+		var ks, vs []string
+		for j := 0; j < n; j++ {
+			ks = append(ks, pick(r, elems))
+			vs = append(vs, pick(r, elems))
+		}
+		if r.Intn(6) == 0 && len(vs) > 0 {
+			vs = vs[:len(vs)-1]
+		}
+		txt := `{"Key":[` + strings.Join(ks, ",") + `],"Value":[` + strings.Join(vs, ",") + `]`
+		if r.Intn(2) == 0 {
+			var ls []string
+			for j := 0; j <= n; j++ {
+				if r.Intn(2) == 0 {
+					ls = append(ls, "null")
+				} else {
+					ls = append(ls, `"N`+strconv.Itoa(r.Intn(100))+`-_"`)
+				}
+			}
+			txt += `,"Link":[` + strings.Join(ls, ",") + `]`
+		}
+		txt += "}"
+		if r.Intn(5) == 0 {
+			txt = txt[:r.Intn(len(txt))]
+		}
+		if len(txt) > 0 {
+			ops = append(ops, "decj "+hex.EncodeToString([]byte(txt)))
+		}
+	}
 	ops = append(ops, "defaults")
 	return Case{Cfg{BF: 16, Fmt: "bin", KK: "u64", VKind: "u64", Cache: "none"}, ops}
 }
@@ -314,7 +377,7 @@ func writeVectors(path string, seed int64) {
 var formatRunner = Runner{Mk: func(Cfg) Executor { return formatExec{} }}
 
 func famFormat(f *FamCtx) {
-	f.Report.Rule = "frozen reference vectors (insert-only histories for every bf x format x key kind, every MakeRoot's stored names and bytes, reload) replayed on the implementation, on the model and against the recorded answers of the pinned release; DefaultLayer and DefaultKeyCompare on generated keys of all built-in kinds (uint*, int*, string, []byte, struct) at bf in 2..17, 64, 256 against the Lean layer functions / CRC-64 and against the harness's own statement of the rule; defaults of NewRoot(nil) and NewInMemory; non-trivial = every vector and every generated batch"
+	f.Report.Rule = "frozen reference vectors (insert-only histories for every bf x format x key kind, every MakeRoot's stored names and bytes, reload) replayed on the implementation, on the model and against the recorded answers of the pinned release; DefaultLayer and DefaultKeyCompare on generated keys of all built-in kinds (uint*, int*, string, []byte, struct) at bf in 2..17, 64, 256 against the Lean layer functions / CRC-64 and against the harness's own statement of the rule; defaults of NewRoot(nil) and NewInMemory; v1marshaler node texts with nested / quoted / escaped elements (also truncated) decoded by encoding/json and by the model's scanner; non-trivial = every vector and every generated batch"
 	rn := formatRunner
 	f.Gen = func() Case { return genFormatCase(f.Rand) }
 	// vectors first
